@@ -41,6 +41,8 @@ impl WalHandle {
                 shard_id = self.shard_id, entry = ?entry,
                 "Appending entry to WAL"
             );
+            #[cfg(sneldb_verif)]
+            crate::verif_hooks::wal_enqueued();
             let _ = sender.send(WalMessage::Entry(entry)).await;
         } else {
             error!(
@@ -99,6 +101,8 @@ impl WalHandle {
             while let Some(msg) = rx.recv().await {
                 match msg {
                     WalMessage::Entry(entry) => {
+                        #[cfg(sneldb_verif)]
+                        crate::verif_hooks::step_async("wal.before_append").await;
                         if let Err(err) = writer.append_immediate(&entry) {
                             error!(
                                 target: "wal_handle::spawn_wal_thread",
@@ -113,6 +117,8 @@ impl WalHandle {
                             "Entry appended to WAL"
                         );
 
+                        #[cfg(sneldb_verif)]
+                        crate::verif_hooks::step_async("wal.appended").await;
                         let capacity = CONFIG.engine.fill_factor * CONFIG.engine.event_per_zone;
                         if writer.entries_written >= capacity as u64 {
                             if let Err(err) = writer.rotate_log_file() {
@@ -129,6 +135,8 @@ impl WalHandle {
                                 );
                             }
                         }
+                        #[cfg(sneldb_verif)]
+                        crate::verif_hooks::wal_written();
                     }
                     WalMessage::Shutdown => {
                         info!(
